@@ -7,6 +7,9 @@
                      suspension point before its release is covered by a drop guard that performs the release
                      (a dropped future runs only destructors)
   availability       are_dependencies_available_for answers from the dependencies map / hint bits only (shared with C09/C20)
+
+Added after the second and third seeding rounds:
+  new-solvables  (shared with C09) per-solve bookkeeping, not the persistent cache, decides what still has to be encoded
 """
 from common import *
 import q, mech
